@@ -134,6 +134,17 @@ class Run:
             self.model[(n, 'value')] = getattr(self.o, n) if n in self.const else None
             for s in SLOTS:
                 self.model[(n, s)] = None
+        self.class_defaults_changed = 0
+        if level == 'instance' and rng.random() < 0.3:
+            # before anything is assigned on the instance, it is given Parameter objects of its own (its namespace is read)
+            # and the class is assigned new values: the instance follows them, and the first assignment on the instance
+            # announces them as the old values
+            for n in rng.sample([n_ for n_ in NAMES if n_ not in self.const], rng.randint(1, 2)):
+                self.o.param[n]
+                v = V.pool(rng)
+                setattr(cls, n, v)
+                self.model[(n, 'value')] = v
+                self.class_defaults_changed += 1
         self.reg = []
         self.regidx = 0
         self.ctx = []
